@@ -302,3 +302,39 @@ def replay(pid, path):
         return 1
     print("replay: case no longer fails on the current tree")
     return 0
+
+
+def cluster(pid, tier="quick", limit=3):
+    """development aid: group failing cases by (features, symptoms) — prints, decides nothing"""
+    global _mod
+    import collections
+
+    sut.prepare()
+    mod = importlib.import_module("mc.props." + pid.lower())
+    _mod = mod
+    sut.warm()
+    if hasattr(mod, "prepare"):
+        mod.prepare(tier)
+    cases = list(mod.gen_cases(tier))
+    ctx = mp.get_context("fork")
+    chunks = [list(enumerate(cases))[i:i + 32] for i in range(0, len(cases), 32)]
+    results = [None] * len(cases)
+    with ctx.Pool(WORKERS) as pool:
+        for part in pool.imap_unordered(_eval_chunk, chunks):
+            for idx, res in part:
+                results[idx] = res
+    groups = collections.defaultdict(list)
+    for i, r in enumerate(results):
+        if "harness_error" in r:
+            groups[("HARNESS", r["harness_error"][-300:])].append(i)
+        elif r.get("diffs"):
+            feats = tuple(mod.features(cases[i])) if hasattr(mod, "features") else ()
+            groups[(feats, tuple(sorted({d["symptom"] for d in r["diffs"]})))].append(i)
+    print("cases", len(cases), "failing", sum(len(v) for v in groups.values()))
+    for k, idxs in sorted(groups.items(), key=lambda kv: -len(kv[1])):
+        print("== %d  features=%s symptoms=%s" % (len(idxs), k[0], k[1]))
+        for i in idxs[:limit]:
+            d = mod.describe(cases[i]) if hasattr(mod, "describe") else cases[i]
+            print("     ", json.dumps(d)[:400])
+            for x in results[i].get("diffs", [])[:3]:
+                print("         ", json.dumps(x)[:400])
